@@ -7,7 +7,7 @@ P="$1"; shift
 cd /repo || exit 2
 if ! git apply --check "$P" 2>/dev/null; then echo "MUTANT $P: patch does not apply"; exit 2; fi
 git apply "$P"
-trap 'git -C /repo checkout -- . ' EXIT
+trap 'git -C /repo checkout -- . ; /verif/build.sh' EXIT   # never leave a mutated binary behind
 if [ "${SKIP_TESTS:-0}" != "1" ]; then
   if ! CARGO_NET_OFFLINE=true cargo test --workspace --no-fail-fast --offline >/tmp/mutant-test.log 2>&1; then
     echo "MUTANT $P: existing tests FAIL with this patch (not a valid mutant)"; grep -E "^test .* FAILED|panicked" /tmp/mutant-test.log | head -5; exit 3
